@@ -179,6 +179,9 @@ pub const CORPUS: &[&str] = &[
     "SELECT id, age FROM users WHERE city IN ('NY', 'LA') AND age NOT IN (20) AND NOT (score IS NULL) ORDER BY id",
     "SELECT a.id, b.amount FROM users AS a JOIN orders AS b ON a.id = b.user_id ORDER BY a.id, b.amount",
     "SELECT a.id AS uid, b.amount AS amt FROM users AS a JOIN orders AS b ON a.id = b.user_id ORDER BY uid, amt",
+    // the clock: nothing in a compilation may depend on when (or on which thread) it ran
+    "SELECT id, CURRENT_TIMESTAMP AS seen_at FROM users ORDER BY id",
+    "SELECT id, CURRENT_DATE AS d, CURRENT_TIME AS t FROM users WHERE age > 20 ORDER BY id",
     // one variadic function at several arities
     "SELECT id, concat(city, city) AS c2 FROM users ORDER BY id",
     "SELECT id, concat(city, '/', city, '!') AS c4 FROM users WHERE id > 1 ORDER BY id",
